@@ -3,7 +3,7 @@ import json, os
 from ..core import ToolError
 
 GEN = """SPECIFICATION Spec
-CONSTANTS NRows = {nrows}
+CONSTANTS MRows = {rows}
           MKeys = {keys}
           MVals = {vals}
           LoadLo = 2
@@ -24,7 +24,7 @@ CHECK_DEADLOCK FALSE
 
 # pre-built columns (shape-kind) x instantiation of the six row classes (near = base-1, base, mid, top,
 # top+1, far; break = the break-even rows of dense_is_smaller on both sides, and row 0)
-SC_QUICK = ["dense-int-near", "dense-int-break", "dense-str-break", "dense-bool-near", "sparse-int-near", "gappy-float-near"]
+SC_QUICK = ["dense-int-near", "dense-str-break", "sparse-bool-near", "gappy-float-near"]
 SC_FULL = ["%s-%s-%s" % (s, k, i) for s in ("dense", "sparse", "gappy") for k in ("int", "str", "float", "bool")
            for i in ("near", "break")] + ["desc-int-near", "desc-str-break", "big-int-near", "big-bool-break"]
 
@@ -53,37 +53,43 @@ def check_cov(ctx, trace, label):
 
 def run(ctx):
     q = ctx.quick
-    W = dict(workers=min(6, int(os.environ.get("VERIF_WORKERS", "6"))))
+    W = dict(workers=min(4, int(os.environ.get("VERIF_WORKERS", "4"))))
     # self-test: before #594 remove_property did not exist (the column kept its copy): TLC must refute LastWriteWins
-    ctx.tlc_gen("MC_ColumnMap", GEN.format(nrows=3, keys='{"a"}', vals='{"v1"}', maxh=2, legacy="TRUE", emit=""),
+    ctx.tlc_gen("MC_ColumnMap", GEN.format(rows="{1,2,3}", keys='{"a"}', vals='{"v1"}', maxh=2, legacy="TRUE", emit=""),
                 "legacy-selftest", expect_violation=True, workers=2)
-    full = dict(nrows=6, keys='{"a","b"}', vals='{"v1","v2","w1","o1","nul"}')
-    red = dict(nrows=6, keys='{"a"}', vals='{"v1","w1","nul"}')
-    tiny = dict(nrows=6, keys='{"a"}', vals='{"v1"}')
+    full = dict(rows="{1,2,3,4,5,6}", keys='{"a","b"}', vals='{"v1","v2","w1","o1","nul"}')    # 78 operations
+    mid = dict(rows="{1,2,3,4,5,6}", keys='{"a","b"}', vals='{"v1","w1","nul"}')               # 54
+    red = dict(rows="{1,2,3,4,5,6}", keys='{"a"}', vals='{"v1","w1","nul"}')                   # 30
+    edge = dict(rows="{1,2,5,6}", keys='{"a"}', vals='{"v1","w1"}')                            # 16
+    tiny = dict(rows="{1,4,6}", keys='{"a"}', vals='{"v1"}')                                   # 9
     E = "ACTION_CONSTRAINT EmitLeaf"
-    # every operation sequence of the given length over the row classes (no VIEW: the implementation's
-    # representation depends on the history, not on the abstract map)
-    s_full = ctx.tlc_gen("MC_ColumnMap", GEN.format(maxh=2, legacy="FALSE", emit=E, **full), "allseq2-full", **W)
-    s_red = ctx.tlc_gen("MC_ColumnMap", GEN.format(maxh=3, legacy="FALSE", emit=E, **red), "allseq3-reduced", **W)
-    runs = [("full2", s_full, SC_QUICK if q else SC_FULL), ("red3", s_red, SC_QUICK[:3] if q else SC_FULL)]
-    if not q:
-        s4 = ctx.tlc_gen("MC_ColumnMap", GEN.format(maxh=4, legacy="FALSE", emit=E, **red), "allseq4-reduced", timeout=3000, **W)
-        s5 = ctx.tlc_gen("MC_ColumnMap", GEN.format(maxh=5, legacy="FALSE", emit=E, **tiny), "allseq5-tiny", timeout=3000, **W)
-        runs += [("red4", s4, ["dense-int-near", "dense-int-break", "sparse-int-near"]),
-                 ("tiny5", s5, ["dense-int-near", "dense-str-break", "sparse-bool-near", "gappy-int-break"])]
+
+    def gen(name, alpha, maxh):
+        # every operation sequence of length maxh over the row classes (no VIEW: the implementation's
+        # representation depends on the history, not on the abstract map)
+        return ctx.tlc_gen("MC_ColumnMap", GEN.format(maxh=maxh, legacy="FALSE", emit=E, **alpha), name, timeout=3000, **W)
+
+    if q:
+        runs = [("mid2", gen("allseq2-mid", mid, 2), SC_QUICK),
+                ("edge3", gen("allseq3-edge", edge, 3), ["dense-int-break", "sparse-str-near"])]
+    else:
+        runs = [("full2", gen("allseq2-full", full, 2), SC_FULL),
+                ("red3", gen("allseq3-reduced", red, 3), SC_QUICK),
+                ("edge4", gen("allseq4-edge", edge, 4), ["dense-int-break", "sparse-str-near"]),
+                ("tiny5", gen("allseq5-tiny", tiny, 5), ["dense-int-near", "dense-bool-break", "sparse-int-near", "gappy-str-break"])]
     ctx.assume("rows are instantiated from six classes per pre-built column (base-1, base, mid, top, top+1, far / the break-even rows of "
                "dense_is_smaller); values from {same type, the type's default, other primitive type, DateTime, Null}",
                "Set(Null): the read after it is checked (null); whether get_property_keys lists such a key is left open because the property "
                "does not say whether an explicit null is 'a value' (the code lists it, its doc comment says non-null only)",
                "Column::len / is_dense and the order of get_property_keys are not constrained")
-    for name, scripts, scen in runs:
+    for k, (name, scripts, scen) in enumerate(runs):
         sp = ctx.write_scripts("columnar-" + name, scripts, prefix=name)
         tr = ctx.run_harness("columnar", sp, name="columnar-" + name, args=["scenarios=" + ",".join(scen)], timeout=3000)
-        if name == "full2":
+        if k == 0:
             check_cov(ctx, tr, "scripted")
         ctx.validate("ColumnMap_Trace", TRACE, tr, name="ColumnMap_Trace-" + name, corrupt=corrupt, timeout=3000)
     # impl -> spec: seeded adversarial random sequences
-    nscr, nev = (10, 3000) if q else (120, 6000)
+    nscr, nev = (10, 3000) if q else (80, 5000)
     rnd = [{"sid": "rnd-%d" % i, "random": {"seed": ctx.seed * 100003 + i, "events": nev}} for i in range(nscr)]
     sp = ctx.write_scripts("columnar-random", rnd, wrap=False)
     tr = ctx.run_harness("columnar", sp, name="columnar-random", timeout=3000)
